@@ -17,7 +17,7 @@ Proof.
   rewrite Htodo in Hsimple. inversion Hsimple as [|x y Hs1 Hs2]; subst x y.
   destruct cl as [t e|t es|t ck|t mb ck]; cbn in Hs1; try discriminate.
   - (* ---------------- append *)
-    unfold th_ok in Hok. rewrite Htodo in Hok.
+    unfold th_okP in Hok. rewrite Htodo in Hok.
     cbn [seg env_of' v_cfg v_mode] in Hstep. unfold seg_append in Hstep.
     destruct (th_pc th) eqn:Hpc; try contradiction.
     + destruct (ensure_writer c (sh_st (cs_sh cs)) t) as [s1 w0] eqn:Hens.
@@ -42,40 +42,44 @@ Proof.
       rewrite Ha in Hstep. inversion Hstep; subst cs' l. rewrite upd_eq. exists L. exact HI.
     + inversion Hstep; subst cs' l. rewrite upd_eq. exists L.
       apply (stepF_A5 c progs cs L tid th t e rest Hc Hinv Hth Htodo Hpc).
-  - (* ---------------- read_next *)
-    destruct ck; [|discriminate].
+  - (* ---------------- read_next, consuming or peeking *)
     pose proof Hok as Hok0.
-    unfold th_ok in Hok. rewrite Htodo in Hok. destruct Hok as (_ & Hok).
+    unfold th_okP in Hok. rewrite Htodo in Hok.
+    destruct (readF_common c progs cs L tid th t ck rest Hinv Hth Htodo) as (Hhead & Hm & Hh & Hw).
     cbn [seg env_of' v_cfg v_mode] in Hstep. unfold seg_read in Hstep.
     destruct (th_pc th) eqn:Hpc; try contradiction.
     + inversion Hstep; subst cs' l. rewrite upd_eq. exists L.
-      apply (stepF_R1 c progs cs L tid th t rest Hinv Hth Htodo Hpc).
+      apply (stepF_R1 c progs cs L tid th t ck rest Hinv Hth Htodo Hpc).
     + (* loop top *)
-      pose proof (stepF_rn_top c m progs cs L tid th t rest Hc Hinv Hth Htodo ltac:(now rewrite Hpc)) as HT.
-      destruct (rn_top c m (cs_sh cs) t true) as [sh' p' l'|sh' r'|]; inversion Hstep; subst cs' l; rewrite upd_eq; exact HT.
-    + destruct pers as [pp|]; inversion Hstep; subst cs' l; rewrite upd_eq; exists L.
+      pose proof (stepF_rn_top c m progs cs L tid th t ck rest Hc Hinv Hth Htodo ltac:(now rewrite Hpc)) as HT.
+      destruct (rn_top c m (cs_sh cs) t ck) as [sh' p' l'|sh' r'|]; inversion Hstep; subst cs' l; rewrite upd_eq; exact HT.
+    + destruct Hok as (-> & Hok).
+      destruct pers as [pp|]; inversion Hstep; subst cs' l; rewrite upd_eq; exists L.
       * destruct tl; apply (stepF_idx c progs cs L tid th t rest _ r pp Hinv Hth Htodo Hpc).
       * apply (stepF_ret c progs cs L tid th t rest r Hinv Hth Htodo). left. eexists. exact Hpc.
-    + inversion Hstep; subst cs' l. rewrite upd_eq. exists L.
+    + destruct Hok as (-> & Hok).
+      inversion Hstep; subst cs' l. rewrite upd_eq. exists L.
       apply (stepF_ret c progs cs L tid th t rest r Hinv Hth Htodo). right. exact Hpc.
-    + destruct (ts_writer (get_ts (sh_st (cs_sh cs)) (t_id t))) as [w|] eqn:Hw.
+    + destruct (ts_writer (get_ts (sh_st (cs_sh cs)) (t_id t))) as [w|] eqn:Hw0.
       * destruct (wl_holder (sh_wl (cs_sh cs)) (t_id t)) as [x|] eqn:Hfree; [discriminate|].
         inversion Hstep; subst cs' l. rewrite upd_eq. exists L.
-        apply (stepF_R5 c progs cs L tid th t rest sb so w Hinv Hth Htodo Hpc Hw Hfree).
+        apply (stepF_R5 c progs cs L tid th t ck rest sb so w Hinv Hth Htodo Hpc Hw0 Hfree).
       * inversion Hstep; subst cs' l. rewrite upd_eq. exists L.
-        apply (stepF_ret_noop c progs cs L tid th (CRead t true) rest RNone (t_id t) Hinv Hth Htodo eq_refl I).
-        -- intros t'. unfold th_mid. now rewrite Htodo.
-        -- intros t'. unfold th_holds. now rewrite Htodo.
-        -- intros t'. unfold del_pending. now rewrite Htodo, Hpc.
-        -- intros t'. unfold wr_pending. now rewrite Htodo.
+        apply (stepF_ret_noop c progs cs L tid th (CRead t ck) rest RNone (t_id t) Hinv Hth Htodo eq_refl I Hm Hh).
+        -- intros t'. unfold del_pending. rewrite Htodo, Hpc. cbn. now destruct ck.
+        -- intros t'. now rewrite Hw.
     + (* after the writer snapshot *)
       cbn [andb] in Hstep.
       destruct (r_idx (reader_of (get_ts (sh_st (cs_sh cs)) (t_id t))) <? length (r_chain (reader_of (get_ts (sh_st (cs_sh cs)) (t_id t)))))%nat eqn:Eidx.
-      * pose proof (stepF_rn_top c m progs cs L tid th t rest Hc Hinv Hth Htodo ltac:(now rewrite Hpc)) as HT.
-        destruct (rn_top c m (cs_sh cs) t true) as [sh' p' l'|sh' r'|]; inversion Hstep; subst cs' l; rewrite upd_eq; exact HT.
+      * pose proof (stepF_rn_top c m progs cs L tid th t ck rest Hc Hinv Hth Htodo ltac:(now rewrite Hpc)) as HT.
+        destruct (rn_top c m (cs_sh cs) t ck) as [sh' p' l'|sh' r'|]; inversion Hstep; subst cs' l; rewrite upd_eq; exact HT.
       * inversion Hstep; subst cs' l. rewrite upd_eq. exists L.
-        apply (stepF_init c m progs cs L tid th t rest sb so a Hinv Hth Htodo Hpc).
+        apply (stepF_init c m progs cs L tid th t ck rest sb so a Hinv Hth Htodo Hpc).
     + (* the read from the snapshot *)
+      assert (Hnone : INVF c progs (upd cs (cs_sh cs) tid {| th_todo := rest; th_pc := PStart; th_done := RNone :: th_done th |}) L).
+      { apply (stepF_ret_noop c progs cs L tid th (CRead t ck) rest RNone (t_id t) Hinv Hth Htodo eq_refl I Hm Hh).
+        - intros t'. unfold del_pending. rewrite Htodo, Hpc. cbn. now destruct ck.
+        - intros t'. now rewrite Hw. }
       destruct (off <? b_used a) eqn:Elt.
       * destruct (block_read c a off) as [[e consumed]|] eqn:Hbr.
         -- cbn [andb] in Hstep.
@@ -83,22 +87,17 @@ Proof.
                      || sealed_since (r_chain (reader_of (get_ts (sh_st (cs_sh cs)) (t_id t)))) a
                      || negb ((if r_tail_bid (reader_of (get_ts (sh_st (cs_sh cs)) (t_id t))) =? b_id a
                                then r_tail_off (reader_of (get_ts (sh_st (cs_sh cs)) (t_id t))) else 0) =? off)) eqn:Eval.
-           ++ pose proof (stepF_rn_top c m progs cs L tid th t rest Hc Hinv Hth Htodo ltac:(now rewrite Hpc)) as HT.
-              destruct (rn_top c m (cs_sh cs) t true) as [sh' p' l'|sh' r'|]; inversion Hstep; subst cs' l; rewrite upd_eq; exact HT.
-           ++ destruct (should_persist m _ false) as [r6 p] eqn:Esp. inversion Hstep; subst cs' l. rewrite upd_eq. eexists.
-              apply (stepF_commit c m progs cs L tid th t rest a off e consumed Hc Hinv Hth Htodo Hpc ltac:(lia) Hbr Eval r6 p Esp).
-        -- inversion Hstep; subst cs' l. rewrite upd_eq. exists L.
-           apply (stepF_ret_noop c progs cs L tid th (CRead t true) rest RNone (t_id t) Hinv Hth Htodo eq_refl I).
-           ++ intros t'. unfold th_mid. now rewrite Htodo.
-           ++ intros t'. unfold th_holds. now rewrite Htodo.
-           ++ intros t'. unfold del_pending. now rewrite Htodo, Hpc.
-           ++ intros t'. unfold wr_pending. now rewrite Htodo.
-      * inversion Hstep; subst cs' l. rewrite upd_eq. exists L.
-        apply (stepF_ret_noop c progs cs L tid th (CRead t true) rest RNone (t_id t) Hinv Hth Htodo eq_refl I).
-        -- intros t'. unfold th_mid. now rewrite Htodo.
-        -- intros t'. unfold th_holds. now rewrite Htodo.
-        -- intros t'. unfold del_pending. now rewrite Htodo, Hpc.
-        -- intros t'. unfold wr_pending. now rewrite Htodo.
+           ++ pose proof (stepF_rn_top c m progs cs L tid th t ck rest Hc Hinv Hth Htodo ltac:(now rewrite Hpc)) as HT.
+              destruct (rn_top c m (cs_sh cs) t ck) as [sh' p' l'|sh' r'|]; inversion Hstep; subst cs' l; rewrite upd_eq; exact HT.
+           ++ destruct ck.
+              ** destruct (should_persist m _ false) as [r6 p] eqn:Esp. inversion Hstep; subst cs' l. rewrite upd_eq. eexists.
+                 apply (stepF_commit c m progs cs L tid th t rest a off e consumed Hc Hinv Hth Htodo Hpc ltac:(lia) Hbr Eval r6 p Esp).
+              ** inversion Hstep; subst cs' l. rewrite upd_eq. exists L.
+                 apply (stepF_ret_noop c progs cs L tid th (CRead t false) rest (REntry (out_of e)) (t_id t) Hinv Hth Htodo eq_refl I Hm Hh).
+                 --- intros t'. unfold del_pending. now rewrite Htodo.
+                 --- intros t'. now rewrite Hw.
+        -- inversion Hstep; subst cs' l. rewrite upd_eq. exists L. exact Hnone.
+      * inversion Hstep; subst cs' l. rewrite upd_eq. exists L. exact Hnone.
 Qed.
 
 (* ------------------------------------------------------------------ every schedule *)
@@ -111,7 +110,10 @@ Proof.
   destruct (stepF_inv c m be progs cs L tid cs' l Hc Hnd Hinv Es) as (L' & HI). eapply IH; eauto.
 Qed.
 
-Lemma INVF_init c progs : simple_progs progs -> INVF c progs (cinit progs) (fun _ => []).
+Definition simple_progsP (progs : list (list call)) : Prop :=
+  Forall (Forall (fun cl => simple_callP cl = true)) progs.
+
+Lemma INVF_init c progs : simple_progsP progs -> INVF c progs (cinit progs) (fun _ => []).
 Proof.
   intros Hs.
   assert (Hnth : forall i th, nth_error (cs_threads (cinit progs)) i = Some th ->
@@ -131,9 +133,9 @@ Proof.
   - intros t. cbn. intros i th Hi. destruct (Hnth i th Hi) as (-> & _). unfold th_holds. cbn. now destruct (nth i progs []) as [|[| | |] ?].
   - unfold cinit. cbn. apply map_length.
   - intros i th Hi. destruct (Hnth i th Hi) as (-> & Hlt).
-    assert (Hsi : Forall (fun cl => simple_call cl = true) (nth i progs [])).
+    assert (Hsi : Forall (fun cl => simple_callP cl = true) (nth i progs [])).
     { eapply Forall_forall in Hs; [exact Hs|]. apply nth_In. exact Hlt. }
-    split; [apply th_ok_start; [reflexivity|exact Hsi]|]. split; [exact Hsi|]. exists []. split; [reflexivity|constructor].
+    split; [apply th_okP_start; [reflexivity|exact Hsi]|]. split; [exact Hsi|]. exists []. split; [reflexivity|constructor].
   - intros i th Hi. destruct (Hnth i th Hi) as (-> & _). apply winF_start. reflexivity.
   - intros t. rewrite Heff. reflexivity.
   - intros t i th Hi. destruct (Hnth i th Hi) as (-> & _). unfold del_seq, del_pending, log_of. cbn.
@@ -144,7 +146,7 @@ Proof.
 Qed.
 
 Theorem invF_every_schedule c m be progs sched :
-  cfg_ok c -> simple_progs progs -> NoDup (offered_pids progs) ->
+  cfg_ok c -> simple_progsP progs -> NoDup (offered_pids progs) ->
   exists L, INVF c progs (ro_cs (run_schedule (env_of' c m be) true progs sched)) L.
 Proof.
   intros Hc Hs Hnd. unfold run_schedule.
@@ -153,7 +155,7 @@ Qed.
 
 (* C05 for the code with the fix: any number of producers and consumers, every schedule *)
 Theorem fixed_every_schedule c m be progs sched :
-  cfg_ok c -> simple_progs progs -> NoDup (offered_pids progs) ->
+  cfg_ok c -> simple_progsP progs -> NoDup (offered_pids progs) ->
   let ro := run_schedule (env_of' c m be) true progs sched in
   threads_done (ro_cs ro) = true ->
   c05_run_ok progs (cresults (ro_cs ro)) false = true.
@@ -161,4 +163,10 @@ Proof.
   intros Hc Hs Hnd ro Hdone.
   destruct (invF_every_schedule c m be progs sched Hc Hs Hnd) as (L & HI).
   apply (invF_accepts c progs (ro_cs ro) L Hs Hnd HI Hdone).
+Qed.
+
+Lemma simple_progs_P progs : simple_progs progs -> simple_progsP progs.
+Proof.
+  unfold simple_progs, simple_progsP. intros H. eapply Forall_impl; [|exact H]. intros p Hp.
+  eapply Forall_impl; [|exact Hp]. intros cl Hc. destruct cl as [| |t ck|]; try discriminate; reflexivity.
 Qed.
